@@ -2,17 +2,20 @@
 
 1. OBSERVE the universe through the program's own interfaces (real program, in process):
    * what it ACCEPTS: for every phase / suite section and every candidate name a minimal use (`[phase]` + the name on
-     a line) is classified "unknown instruction" or not by comparison with the report for a decoy name; likewise
+     a line) is "unknown instruction" or not, told by comparison with the report for a decoy name; likewise
      `def TYPE`, `@[BUILTIN]@`, `suite --reporter NAME`, `actor = KEYWORD`, `[phase]` / `[section]` headers;
    * what the help LISTS: `help PHASE instructions`, `help instructions`, the list at the end of `help PHASE`,
      "Additional instructions" of `help suite SECTION`, `help ENTITY-TYPE`, the `(>help ...)` cross references of
      every page, and ids / hrefs / articles / link titles of `help htmldoc`.
 2. The universe is written as a generated module HelpMC (scratch only) that binds the constants of spec/Help.tla.
-   TLC (a) judges the static relations (DocumentedIffAccepted, ... AnchorsUnique, EveryRefHasAnchor) and prints the
-   discrepancy sets, (b) model-checks the request-resolution machine over every request of the domain, (c) exports
-   every (request, acceptable result) pair.
-3. Every request is given to the real `exactly help ...`; exit code, stdout emptiness and the identity / listed
-   contents of the page are compared with TLC's acceptable results.
+   TLC (a) judges the static relations (DocumentedIffAccepted ... AnchorsUnique, EveryRefHasAnchor) and prints the
+   discrepancy sets (HelpExport!ExportStatic), (b) model-checks the request machine of `help help` over every
+   request of the domain and (c) exports every (request, acceptable result) pair (HelpExport!Export).
+3. Every request is given to the real `exactly help ...` (a sample also as a subprocess); exit code, stdout
+   emptiness, and the identity / listed contents of the page are compared with TLC's acceptable results; every
+   `(>help ...)` hint must lead to the page its title states.
+4. Negative controls: corrupted observations must be rejected by the comparison, a corrupted universe (name dropped
+   from a list, phantom name, duplicated id, dead href, missing article, misnamed link, dead console hint) by TLC.
 """
 import hashlib
 import json
@@ -173,14 +176,13 @@ def w_help_subprocess(task, cd):
                 env_changed=[], left=sorted(os.listdir(cd.home)) + cd.sandboxes())
 
 
-def _template(r, name):
-    """The report with the probed name blanked: two reports of the same kind have the same template."""
-    first = (r['stdout'].splitlines() or [''])[0]
-    return [r['exit'], first, r['stderr'].replace(name, '<NAME>')]
+def _report(r):
+    """What the program reports: exit code, first line of stdout (the exit identifier), stderr."""
+    return [r['exit'], (r['stdout'].splitlines() or [''])[0], r['stderr']]
 
 
 def w_accept(task, cd):
-    """Minimal use of a name through the interface of its kind; returns the template of what is reported."""
+    """Minimal use of a name through the interface of its kind; returns what is reported."""
     from harness import inproc
     k, name = task['kind'], task['name']
     if k == 'instr':
@@ -203,6 +205,10 @@ def w_accept(task, cd):
         # VALIDATION_ERROR, a word that is no symbol name stays as it is and `test` fails
         cd.write({'c.case': "[setup]\n%% test @[%s]@ != '@[%s]@'\n" % (name, name)})
         argv = ['c.case']
+    elif k == 'builtin-calibration':
+        # vacuity control of the probe above: a symbol that IS defined must make it pass
+        cd.write({'c.case': "[setup]\ndef string %s = value\n%% test @[%s]@ != '@[%s]@'\n" % (name, name, name)})
+        argv = ['c.case']
     elif k == 'reporter':
         cd.write({'s.suite': ''})
         argv = ['suite', '--reporter', name, 's.suite']
@@ -213,8 +219,8 @@ def w_accept(task, cd):
         raise ValueError(k)
     r = inproc.run_main(argv, cd)
     if r['exception']:
-        return dict(template=['exception', r['exception'], ''], exit=None)
-    return dict(template=_template(r, name), exit=r['exit'], first=(r['stdout'].splitlines() or [''])[0])
+        return dict(report=['exception', r['exception'], ''], exit=None)
+    return dict(report=_report(r), exit=r['exit'])
 
 
 def w_registry(task, cd):
@@ -462,6 +468,7 @@ def observe(pool, tier: str, seed: int) -> Universe:
     tasks += [dict(kind='section', name=n) for n in header_probes + [DECOY]]
     tasks += [dict(kind='type', name=n) for n in words + [DECOY]]
     tasks += [dict(kind='builtin', name=n) for n in words + [DECOY, 'VERIF_NO_SUCH']]
+    tasks += [dict(kind='builtin-calibration', name='VERIF_DEFINED')]
     tasks += [dict(kind='reporter', name=n) for n in words + [DECOY] if not n.startswith('-')]
     actor_cands = sorted(set(actor_kw) | {n.split()[0] for n in ent_listed.get('actor', [])} | {n for n in
                          ent_listed.get('actor', []) if ' ' not in n})
@@ -476,18 +483,22 @@ def observe(pool, tier: str, seed: int) -> Universe:
             raise core.MachineryFailure('acceptance probe: the decoy name is not refused: %s %s' % (k, r))
 
     def accepted(t, r):
-        """The report differs from the report for the decoy with the name substituted (same kind of refusal)."""
-        if r is None or 'template' not in r:
+        """The report is not the report for the decoy with the decoy's name replaced by this name (i.e. it is not the
+        same kind of refusal)."""
+        if r is None or 'report' not in r:
             raise core.MachineryFailure('acceptance probe failed: %s %s' % (t, r))
         if t['kind'] in ('builtin', 'reporter'):
             return r['exit'] == 0          # the symbol resolves / the suite is run and reported
-        d = decoy[(t['kind'], t.get('where'))]
-        want = [d['template'][0], d['template'][1], d['template'][2].replace('<NAME>', t['name'])]
-        have = [r['template'][0], r['template'][1], r['template'][2].replace('<NAME>', t['name'])]
-        return have != want
+        d = decoy[(t['kind'], t.get('where'))]['report']
+        return r['report'] != [d[0], d[1], d[2].replace(DECOY, t['name'])]
 
     acc = {}
     for t, r in zip(tasks, res):
+        if t['kind'] == 'builtin-calibration':
+            if not r or r.get('exit') != 0:
+                raise core.MachineryFailure('acceptance probe: a reference to a defined symbol is not seen as '
+                                            'accepted (is `test` on the PATH?): %s' % r)
+            continue
         if t['name'] in (DECOY, 'VERIF_NO_SUCH'):
             if t['name'] == 'VERIF_NO_SUCH' and accepted(t, r):
                 raise core.MachineryFailure('acceptance probe: an undefined symbol is accepted')
@@ -551,20 +562,26 @@ def observe(pool, tier: str, seed: int) -> Universe:
               ('directory',), ('sandbox',), ('command',)]
     items |= set(decoys)
     rnd = random.Random(seed)
+    fixed = sorted(set(KEYWORDS) | set(ent_types) | set(PHASES) | set(SECTIONS))
+    variants, heads = set(), set()
     if tier != 'quick':
-        base = sorted(items)
-        for it in base:
+        for it in sorted(items):
             s = ' '.join(it)
-            for v in (s.upper(), s.capitalize(), s.lower()):
+            for v in (s.upper(), s.capitalize()):
                 if v != s:
-                    items.add(tuple(v.split()))
+                    variants.add(tuple(v.split()))
             if len(s) >= 3:
-                for _ in range(2):
+                for _ in range(3):
                     a = rnd.randrange(0, len(s) - 1)
                     b = rnd.randrange(a + 2, len(s) + 1)
                     sub = s[a:b].strip()
                     if sub and sub == ' '.join(sub.split()) and not sub.startswith('-'):
-                        items.add(tuple(sub.split()))
+                        variants.add(tuple(sub.split()))
+        variants -= items
+        for w in fixed:
+            heads |= {w, w.upper(), w.capitalize()}
+    variants = sorted(v for v in variants if v and all(tla_ok(w) for w in v))
+    heads = sorted(heads)
     items = sorted(i for i in items if i and all(tla_ok(w) for w in i))
     probes = sorted({('instructions',), ('spec',), (DECOY,), ('file',), ('type',)} & set(items) | {(DECOY,)})
     extra = set(refs)
@@ -578,7 +595,7 @@ def observe(pool, tier: str, seed: int) -> Universe:
     name_seqs = {(n,) for n in names_instr} | {tuple(n.split()) for ns in ent_listed.values() for n in ns} \
         | {tuple(n) for ns in ent_accepted.values() for n in ns} | {(n,) for v in suite_listed.values() for n in v} \
         | {(n,) for (k, w), v in acc.items() if k == 'suite-instr' for n in v}
-    cand_seqs = set(items) | {e[1:] for e in extra if len(e) > 1} | {e[2:] for e in extra if len(e) > 2} \
+    cand_seqs = set(items) | set(variants) | {e[1:] for e in extra if len(e) > 1} | {e[2:] for e in extra if len(e) > 2} \
         | {(w,) for e in extra for w in e}
     low_names = [(n, ' '.join(n).lower()) for n in sorted(name_seqs)]
     loose = []
@@ -589,9 +606,8 @@ def observe(pool, tier: str, seed: int) -> Universe:
         for n, ln in low_names:
             if w != n and lw in ln:
                 loose.append([list(w), list(n)])
-    fixed = sorted(set(KEYWORDS) | set(ent_types) | set(PHASES) | set(SECTIONS))
     first_words = {it[0] for it in items} | {e[0] for e in extra if e} | {e[1] for e in extra if len(e) > 1} \
-        | {it[0] for it in items}
+        | set(heads) | {v[0] for v in variants}
     case_eq = sorted([w, k] for w in first_words for k in fixed if w != k and w.lower() == k.lower())
     U.data = dict(
         Phases=PHASES, InstrPhases=INSTR_PHASES, Sections=SECTIONS, SectionPhase=SECTION_PHASE,
@@ -608,6 +624,7 @@ def observe(pool, tier: str, seed: int) -> Universe:
         LinkNames=link_names, AnchorTitles=anchor_titles,
         ConsoleRefs=sorted(list(r) for r in refs if all(tla_ok(w) for w in r)),
         Items=[list(i) for i in items], Probes=[list(p) for p in probes], ExtraRequests=[list(e) for e in extra],
+        Heads=heads, Variants=[list(v) for v in variants],
         Loose=loose, CaseEq=case_eq)
     return U
 
@@ -674,15 +691,24 @@ def tla_set(vs) -> str:
     return '{' + ', '.join(sorted({tla(x) for x in vs})) + '}'
 
 
-def tla_map(d, val=tla_set) -> str:
+def tla_map(d, val=tla_set, key=tla_str) -> str:
+    """A function as a balanced tree of @@ (a long chain is slow to parse and to evaluate)."""
     if not d:
         return '[x \\in {} |-> {}]'
-    return '(' + ' @@ '.join('%s :> %s' % (tla_str(k), val(v)) for k, v in sorted(d.items())) + ')'
+    leaves = ['%s :> %s' % (key(k), val(v)) for k, v in sorted(d.items())]
+
+    def tree(lo, hi):
+        if hi - lo == 1:
+            return leaves[lo]
+        mid = (lo + hi) // 2
+        return '(%s @@ %s)' % (tree(lo, mid), tree(mid, hi))
+
+    return '(' + tree(0, len(leaves)) + ')'
 
 
 SET_CONSTS = ['Phases', 'InstrPhases', 'Sections', 'EntityTypes', 'AcceptTypes', 'HeaderProbes',
               'AcceptedPhaseHeaders', 'AcceptedSectionHeaders', 'ConsoleRefs', 'Items', 'Probes', 'ExtraRequests',
-              'Loose', 'CaseEq']
+              'Heads', 'Variants', 'CaseEq']
 MAP_CONSTS = ['Accepted', 'SuiteAccepted', 'EntAccepted', 'Listed', 'ListedAll', 'PhasePageListed', 'SuiteListed',
               'EntListed']
 SEQ_CONSTS = ['ManualInstr', 'ManualEnt', 'Ids', 'Refs', 'LinkNames', 'AnchorTitles']
@@ -701,6 +727,10 @@ def write_mc(data: dict, spec_dir: str):
     for c in MAP_CONSTS:
         lines.append('mc_%s == %s' % (c, tla_map(data[c])))
     lines.append('mc_SectionPhase == %s' % tla_map(data['SectionPhase'], val=tla_str))
+    loose_to = {}
+    for w, n in data['Loose']:
+        loose_to.setdefault(tuple(w), []).append(n)
+    lines.append('mc_LooseTo == %s' % tla_map(loose_to, key=tla))
     for c in SEQ_CONSTS:
         lines.append('mc_%s == %s' % (c, tla(data[c])))
     lines += ['mc_TRUE == TRUE', 'mc_FALSE == FALSE', 'mc_OnlyEmptyRequest == {<<>>}',
@@ -709,7 +739,7 @@ def write_mc(data: dict, spec_dir: str):
         fh.write('\n'.join(lines) + '\n')
 
 
-ALL_CONSTS = SET_CONSTS + MAP_CONSTS + ['SectionPhase'] + SEQ_CONSTS + ['AllRequests']
+ALL_CONSTS = SET_CONSTS + MAP_CONSTS + ['SectionPhase', 'LooseTo'] + SEQ_CONSTS + ['AllRequests']
 STATIC_INVARIANTS = ['DocumentedIffAccepted', 'ListsAgree', 'SuiteDocumentedIffAccepted', 'EntitiesDocumentedIffAccepted',
                      'DirectivesAccepted', 'ConfParamsAreConfInstructions', 'EntityTypesDocumented',
                      'HeadersDocumentedIffAccepted', 'ManualCoversInstructions', 'ManualCoversEntities',
@@ -1008,7 +1038,7 @@ def check_ref_titles(ctx, U, groups):
 # ====================================================================================================
 # negative controls
 # ====================================================================================================
-def negative_controls(ctx, U, groups, tasks, owner, obs, base_diffs):
+def negative_controls(ctx, U, groups, tasks, owner, obs):
     rnd = random.Random(ctx.seed + 1)
     tried = rejected = 0
     by_kind = {}
@@ -1069,14 +1099,19 @@ def negative_controls(ctx, U, groups, tasks, owner, obs, base_diffs):
     if tried < 10:
         raise core.MachineryFailure('negative controls: only %d corrupted observations could be made' % tried)
     ctx.cov['negative_controls_rejected'] += rejected
-    # ---- a corrupted universe must be rejected by TLC (static relations and the reference invariant)
+
+
+def negative_universe_static(ctx, U):
+    """A corrupted universe must be rejected by TLC: -> (what was corrupted, invariants violated, discrepancy sets)."""
     d = json.loads(json.dumps(U.data))
     want = {}
-    ph = next(p for p in INSTR_PHASES if len(d['Listed'][p]) > 1)
-    gone = d['Listed'][ph].pop()
-    want['MissingHelp'] = [[ph, gone]]
-    d['Listed'][ph].append('verif-phantom')
-    want['PhantomHelp'] = [[ph, 'verif-phantom']]
+    ph = next((p for p in INSTR_PHASES if set(d['Listed'][p]) & set(d['Accepted'][p])), None)
+    if ph:
+        gone = sorted(set(d['Listed'][ph]) & set(d['Accepted'][ph]))[-1]
+        d['Listed'][ph].remove(gone)
+        want['MissingHelp'] = [[ph, gone]]
+        d['Listed'][ph].append('verif-phantom')
+        want['PhantomHelp'] = [[ph, 'verif-phantom']]
     if d['Ids']:
         d['Ids'].append(d['Ids'][0])
         want['DuplicateIds'] = [d['Ids'][0]]
@@ -1085,31 +1120,24 @@ def negative_controls(ctx, U, groups, tasks, owner, obs, base_diffs):
     if d['ManualInstr']:
         x = d['ManualInstr'].pop()
         want['ManualInstrBad'] = [x]
-    t0 = next((t for t in d['AcceptTypes'] if d['EntListed'][t]), None)
+    t0 = next((t for t in d['AcceptTypes'] if [n for n in d['EntListed'][t] if n in d['EntAccepted'][t]]), None)
     if t0:
-        y = d['EntListed'][t0].pop()
+        y = [n for n in d['EntListed'][t0] if n in d['EntAccepted'][t0]][-1]
+        d['EntListed'][t0].remove(y)
         want['EntityMissingHelp'] = [[t0, y]]
     if d['LinkNames']:
         l0 = d['LinkNames'][0]
         d['LinkNames'].append([l0[0], l0[1] + '-verif'])
         want['MisnamedLinks'] = [[l0[0], l0[1] + '-verif']]
-    d['AcceptedPhaseHeaders'] = [h for h in d['AcceptedPhaseHeaders'] if h != 'cleanup']
-    want['PhaseHeaders'] = ['cleanup']
+    if 'cleanup' in d['AcceptedPhaseHeaders']:
+        d['AcceptedPhaseHeaders'] = [h for h in d['AcceptedPhaseHeaders'] if h != 'cleanup']
+        want['PhaseHeaders'] = ['cleanup']
     viol, diffs, _ = static_judgement(ctx, d, 'negative-static', count=False)
-    for k, v in want.items():
-        have = set(map(json.dumps, diffs.get(k, [])))
-        if not set(map(json.dumps, v)) <= have or not set(map(json.dumps, base_diffs.get(k, []))) - {
-                json.dumps(x) for x in v} <= have | set(map(json.dumps, v)):
-            raise core.MachineryFailure('negative control: corrupted universe, TLC reports %s = %s, expected %s in it'
-                                        % (k, diffs.get(k), v))
-    need = {'MissingHelp': 'DocumentedIffAccepted', 'DuplicateIds': 'AnchorsUnique', 'DeadRefs': 'EveryRefHasAnchor'}
-    for k, inv in need.items():
-        if k in want and inv not in viol:
-            raise core.MachineryFailure('negative control: TLC does not report %s violated (%s)' % (inv, viol))
-    if 'RefTargetExactlyOnce' not in viol:
-        raise core.MachineryFailure('negative control: TLC does not report RefTargetExactlyOnce violated (%s)' % viol)
-    ctx.cov['negative_controls_rejected'] += len(want)
-    # a hint that leads nowhere must violate EveryConsoleRefResolves
+    return want, viol, diffs
+
+
+def negative_universe_ref(ctx, U):
+    """A `(>help ...)` hint that leads nowhere must violate EveryConsoleRefResolves."""
     d = json.loads(json.dumps(U.data))
     bogus = [d['EntityTypes'][0] if d['EntityTypes'] else 'concept', DECOY]
     d['ConsoleRefs'] = d['ConsoleRefs'] + [bogus]
@@ -1121,22 +1149,33 @@ def negative_controls(ctx, U, groups, tasks, owner, obs, base_diffs):
     if r.violated != 'EveryConsoleRefResolves':
         raise core.MachineryFailure('negative control: a dead console cross reference is not rejected by TLC (%s)'
                                     % r.violated)
-    ctx.cov['negative_controls_rejected'] += 1
+    return 1
+
+
+def negative_universe_compare(ctx, want, viol, diffs, base_diffs):
+    for k, v in want.items():
+        have = set(map(json.dumps, diffs.get(k, [])))
+        if not set(map(json.dumps, v)) <= have:
+            raise core.MachineryFailure('negative control: corrupted universe, TLC reports %s = %s, expected %s in it'
+                                        % (k, diffs.get(k), v))
+    need = {'MissingHelp': 'DocumentedIffAccepted', 'DuplicateIds': 'AnchorsUnique', 'DeadRefs': 'EveryRefHasAnchor'}
+    for k, inv in need.items():
+        if k in want and inv not in viol:
+            raise core.MachineryFailure('negative control: TLC does not report %s violated (%s)' % (inv, viol))
+    if 'RefTargetExactlyOnce' not in viol:
+        raise core.MachineryFailure('negative control: TLC does not report RefTargetExactlyOnce violated (%s)' % viol)
+    ctx.cov['negative_controls_rejected'] += len(want)
 
 
 # ====================================================================================================
-def machine_run(ctx, U, domain, name, quick=True):
-    """Model-check the request machine and export every (request, acceptable result)."""
+def machine_run(ctx, U, domain, name):
+    """Model-check the request machine and export every (request, acceptable result) - one TLC run, one worker
+    (PrintT export), with coverage."""
     spec_dir = os.path.join(ctx.scratch, 'spec-' + name)
     write_mc(U.data, spec_dir)
-    if quick:
-        res = ctx.tlc('HelpMC', cfg(MACHINE_INVARIANTS + ['Export'], domain), workers=1, coverage=True, name=name,
-                      spec_dir=spec_dir, must_hold=False)
-        exp = res
-    else:
-        res = ctx.tlc('HelpMC', cfg(MACHINE_INVARIANTS, domain), coverage=True, name=name, spec_dir=spec_dir,
-                      must_hold=False)
-        exp = None
+    res = ctx.tlc('HelpMC', cfg(MACHINE_INVARIANTS + ['Export'], domain), workers=1, coverage=True, name=name,
+                  spec_dir=spec_dir, must_hold=False, timeout=3000)
+    exp = res
     if res.violated is not None:
         if res.violated not in MACHINE_INVARIANTS or res.violated == 'TypeOK':
             raise core.MachineryFailure('TLC: %s\n%s' % (res.violated, res.error_excerpt(60)))
@@ -1163,10 +1202,20 @@ def run(ctx):
         U = observe(pool, ctx.tier, ctx.seed)
         for n in U.notes:
             ctx.note(n)
-        # ---- TLC: static relations; the request machine (model checking + export)
-        viol, diffs, sres = static_judgement(ctx, U.data, 'static')
+        # ---- TLC: the request machine (model checking + export); meanwhile the static relations and the
+        #      corrupted universes of the negative controls
+        from concurrent.futures import ThreadPoolExecutor
+        ex = ThreadPoolExecutor(3)
+        f_static = ex.submit(static_judgement, ctx, U.data, 'static')
+        f_neg1 = ex.submit(negative_universe_static, ctx, U)
+        f_neg2 = ex.submit(negative_universe_ref, ctx, U)
+        try:
+            res, cases = machine_run(ctx, U, 'all', 'mc')
+        finally:
+            ex.shutdown(wait=True)
+        ctx.cov['checker_cmd'] = res.cmd.replace(res.run_dir, '<scratch>')
+        viol, diffs, sres = f_static.result()
         report_static(ctx, viol, diffs)
-        res, cases = machine_run(ctx, U, 'all', 'mc', quick=quick)
         if res.violated is None:
             required = [a for a in ACTIONS]
             ctx.require_coverage(res, required)
@@ -1186,12 +1235,15 @@ def run(ctx):
             U2 = Universe()
             U2.desc, U2.data = U.desc, dict(U.data, ExtraRequests=sorted(list(k) for k in seen),
                                             ConsoleRefs=sorted(list(k) for k in seen))
-            _, cases2 = machine_run(ctx, U2, 'extra', 'mc-refs', quick=True)
+            _, cases2 = machine_run(ctx, U2, 'extra', 'mc-refs')
             g2, _, _, _ = replay_requests(ctx, pool, U2, cases2, 'further cross references')
             U.ref_titles.update({k: sorted(v) for k, v in seen.items()})
             groups.update(g2)
     n_titles = check_ref_titles(ctx, U, groups)
-    negative_controls(ctx, U, groups, tasks, owner, obs, diffs)
+    negative_controls(ctx, U, groups, tasks, owner, obs)
+    want, nviol, ndiffs = f_neg1.result()
+    negative_universe_compare(ctx, want, nviol, ndiffs, diffs)
+    ctx.cov['negative_controls_rejected'] += f_neg2.result()
     # ---- evidence
     d = U.data
     ctx.cov['universe'] = dict(
@@ -1210,7 +1262,7 @@ def run(ctx):
     if ambiguous:
         ctx.note('requests with more than one documented reading (any is accepted): ' + ', '.join(ambiguous[:20]))
     picks = [('setup', 'file'), ('suite', 'conf', 'preprocessor'), ('actor', 'command', 'line'), ('instructions',),
-             ('assert', 'stdin'), ('type', 'strin')]
+             ('assert', 'stdin'), ('setup', 'fil')]
     for j, t in enumerate(tasks):
         if owner[j] in picks:
             picks.remove(owner[j])
@@ -1268,7 +1320,7 @@ def replay(ctx, rec):
                              indent=1))
             bad = bool(still)
         else:
-            res, cases = machine_run(ctx, U, 'all', 'mc', quick=True)
+            res, cases = machine_run(ctx, U, 'all', 'mc')
             groups, tasks, owner, obs = replay_requests(ctx, pool, U, cases, 'request domain')
             check_ref_titles(ctx, U, groups)
             for sig in ctx.violations:
